@@ -45,7 +45,9 @@ def run(ctx, pid):
     mon = ctx.tlc(SPEC, "Trace_TTLMapAbs.cfg", dfs=True, files={"trace.ndjson": trace}, timeout=1800, heap="12g")
     if mon.depth != nlines + 1:
         raise vlib.Infra("monitor did not consume the whole trace (%d of %d)" % (mon.depth - 1, nlines))
-    mism = re.findall(r'<<"MISMATCH", (\d+), "(\w+)", (-?\d+), (-?\d+)>>', mon.out)
+    mism = vlib.tuples(mon.out, "MISMATCH")
+    if len(mism) != mon.out.count('"MISMATCH"'):
+        raise vlib.Infra("unparsed MISMATCH lines in monitor output")
     # 4b. conformance with the transcription
     conf = ctx.tlc(SPEC, "Trace_TTLMap.cfg", dfs=True, files={"trace.ndjson": trace}, timeout=1800, heap="12g",
                    expect_fail=True)
